@@ -5,6 +5,7 @@ import (
 	"fmt"
 	"math/rand/v2"
 	"net"
+	"os"
 	"reflect"
 	"testing"
 	"time"
@@ -217,8 +218,9 @@ func caseRead(r *mon.Rec, idx int, gray bool) {
 		stream = "readgray"
 	}
 	rng := r.Rand(stream, idx)
-	r.Eval(1)
 	rp := replay{stream, idx}
+	r.Current(rp)
+	r.Eval(1)
 	boundPort := []int{68, 68, 0, 65535, 546}[rng.IntN(5)]
 	var boundIP *[4]byte
 	if rng.IntN(3) == 0 {
@@ -378,6 +380,9 @@ func TestCheck(t *testing.T) {
 	_ = gen4.Bytes
 	r := mon.New("C18")
 	defer r.Flush()
+	if os.Getenv("VERIF_REPLAY") == "" {
+		r.Watchdog(60 * time.Second)
+	}
 	var rp replay
 	if mon.ReplayCase(&rp) {
 		switch rp.Stream {
